@@ -277,13 +277,13 @@ func (d *cnDriver) genSpec() cnTxSpec {
 	case x < 21:
 		sp.Fee = bal + 1 + int64(d.rng.Intn(5)) // fee not covered
 		sp.Validity = "lowfeebalance"
-	case x < 24 && d.net.cfg.MinTransact > 0 && bal > 0:
+	case x < 33 && d.net.cfg.MinTransact > 0 && bal > 0:
 		// the fee is covered, the minimum balance an account must keep to transact is not
 		sp.Fee = bal - int64(d.rng.Intn(int(d.net.cfg.MinTransact)))
 		if sp.Fee < 0 {
 			sp.Fee = 0
 		}
-		sp.Validity = "lowfeebalance"
+		sp.Validity = "minbalance"
 	}
 	return sp
 }
@@ -356,7 +356,10 @@ func (d *cnDriver) step() error {
 	nonceBump := map[string]uint64{}
 	for i := 0; i < nTx; i++ {
 		sp := d.genSpec()
-		if sp.Validity == "ok" || sp.Validity == "lowgas" || sp.Validity == "malformed" || sp.Validity == "lowfeebalance" {
+		if sp.Validity == "minbalance" && nonceBump[sp.Signer] > 0 {
+			continue // computed from the balance at the end of the previous block: only as the signer's first transaction of the block
+		}
+		if sp.Validity == "ok" || sp.Validity == "lowgas" || sp.Validity == "malformed" || sp.Validity == "lowfeebalance" || sp.Validity == "minbalance" {
 			sp.Nonce += nonceBump[sp.Signer]
 		}
 		raw, err := n.buildTx(&sp, d.rng)
